@@ -18,10 +18,11 @@ import (
 //
 // Permitted at an operator expression `L op R` (A_Expr) of the received statement:
 //
-//	(4) `value = column` / `value <> column` (value: constant, parameter or a cast of them) may
-//	    be sent as `column = value` / `column <> value` (encryptor/postgresql
-//	    searchable_query_filter.go exchanges the operands of these two symmetric operators for
-//	    every column); no other operator's operands may be exchanged;
+//	(4) `value = column` / `value <> column` / `value IS [NOT] DISTINCT FROM column` (value:
+//	    constant, NULL, parameter or a cast of them) may be sent with the operands exchanged
+//	    (encryptor/postgresql searchable_query_filter.go exchanges the operands of these
+//	    symmetric comparisons for every column); no other operator's operands may be
+//	    exchanged (NULLIF(value, column) is named "=" by pg_query too and is not symmetric);
 //	(2) L a searchable column (or substr(<searchable column>, 1, 33) written by the client)
 //	    and R a searchable column: both may be wrapped in substr(x, 1, 33);
 //	    R a constant, parameter or cast of them: L may be wrapped in substr(L, 1, 33);
@@ -133,11 +134,12 @@ func pgConst(n interface{}) jmap {
 	return nil
 }
 
-// pgValueKind: "lit" (non-NULL constant, possibly cast), "placeholder" (parameter, possibly cast), "".
+// pgValueKind: "lit" (non-NULL constant, possibly cast), "null" (the NULL constant, possibly
+// cast), "placeholder" (parameter, possibly cast), "".
 func pgValueKind(n interface{}) string {
 	if c := pgConst(n); c != nil {
 		if _, isnull := c["isnull"]; isnull {
-			return ""
+			return "null"
 		}
 		return "lit"
 	}
@@ -258,8 +260,10 @@ func pgUndoLit(n0, n1 interface{}) bool {
 func pgUndoCmp(a0, a1 jmap, d *obsDesc, u *undoLog) {
 	kind, _ := a0["kind"].(string)
 	op := pgOpName(a0)
-	// (4) operands exchanged for = and <>
-	if kind == "AEXPR_OP" && (op == "=" || op == "<>") && pgValueKind(a0["lexpr"]) != "" && pgColKey(a0["rexpr"]) != "" {
+	// (4) operands exchanged for = and <> (IS [NOT] DISTINCT FROM are the same two symmetric
+	// comparisons with another treatment of NULL; pg_query names them "=" with their own kind)
+	symmetric := kind == "AEXPR_OP" || kind == "AEXPR_DISTINCT" || kind == "AEXPR_NOT_DISTINCT"
+	if symmetric && (op == "=" || op == "<>") && pgValueKind(a0["lexpr"]) != "" && pgColKey(a0["rexpr"]) != "" {
 		if pgValueKind(a1["lexpr"]) == "" && pgValueKind(a1["rexpr"]) != "" {
 			a0["lexpr"], a0["rexpr"] = a0["rexpr"], a0["lexpr"]
 		}
@@ -271,7 +275,7 @@ func pgUndoCmp(a0, a1 jmap, d *obsDesc, u *undoLog) {
 	lSearch := lsearchKey != "" && d.has(d.Search, lsearchKey)
 	rSearch := rkey != "" && d.has(d.Search, rkey)
 	siteSearch := lSearch && (rSearch || rKind != "")
-	siteToken := lkey != "" && d.has(d.Token, lkey) && rKind != ""
+	siteToken := lkey != "" && d.has(d.Token, lkey) && (rKind == "lit" || rKind == "placeholder")
 	if siteSearch {
 		if rSearch {
 			lx, ok1 := pgSubstr33(a1["lexpr"])
@@ -294,7 +298,8 @@ func pgUndoCmp(a0, a1 jmap, d *obsDesc, u *undoLog) {
 			u.opFam++
 		}
 	}
-	if lkey != "" && d.has(d.Prot, lkey) && rKind == "lit" {
+	// (the client's own substr(<searchable column>, 1, 33) counts as the column here)
+	if lsearchKey != "" && d.has(d.Prot, lsearchKey) && rKind == "lit" {
 		if pgUndoLit(a0["rexpr"], a1["rexpr"]) {
 			u.cmpLit++
 		}
